@@ -7,7 +7,7 @@ import numpy as np
 from hypothesis import strategies as st
 
 from .. import gen, model
-from ..core import Ctx, Violation, call, check, per_shard, run_given, run_machine
+from ..core import as_violation, Ctx, Violation, call, check, per_shard, run_given, run_machine
 
 PID = "C15"
 LEVEL = "exploration"
@@ -121,6 +121,12 @@ class World:
         except Violation as e:
             self.ctx.note_failure({"part": "history", "ops": self.history}, str(e))
             raise
+        except Exception as e:  # noqa: BLE001
+            v = as_violation(e)
+            if v is None:
+                raise
+            self.ctx.note_failure({"part": "history", "ops": self.history}, str(v))
+            raise v from e
 
     def op_create(self, op):
         import cooler
